@@ -112,6 +112,22 @@ func registerHooks(p *Program) {
 		fr.i.noteStub("go.etcd.io/bbolt: replaced by the mbolt model (validated against real bbolt by harness/verifrt/mbolt/diff_test.go)")
 		return call(fr.i, fr, token.NoPos, mb.Func("NewDB"), nil)
 	}
+	// storage fault: verifrt.SetPutFault / DisarmPutFault / PutFaultFired drive
+	// the countdown of the mbolt model (natively: the countdown overlaid at
+	// bbolt's own beforeBucketPut failpoint)
+	mboltCall := func(name string, nargs int) hookFn {
+		return func(fr *frame, args []value) value {
+			mb := fr.i.prog.ImportedPackage(rtPkg + "/mbolt")
+			if mb == nil || mb.Func(name) == nil {
+				panic(abort{AbortUnsupported, "mbolt." + name + " not loaded"})
+			}
+			fr.i.noteStub("storage fault: the k-th bbolt Bucket.Put fails (mbolt model; natively bbolt's own beforeBucketPut failpoint)")
+			return call(fr.i, fr, token.NoPos, mb.Func(name), args[:nargs])
+		}
+	}
+	h[rtPkg+".SetPutFault"] = mboltCall("SetFault", 1)
+	h[rtPkg+".DisarmPutFault"] = mboltCall("Disarm", 0)
+	h[rtPkg+".PutFaultFired"] = mboltCall("Fired", 0)
 	h[rtPkg+".TempPath"] = func(fr *frame, args []value) value { return "/mbolt/tmp/" + args[0].(string) }
 	h[rtPkg+".CleanupDBs"] = func(fr *frame, args []value) value { return nil }
 	h[rtPkg+".IsConcrete"] = func(fr *frame, args []value) value {
